@@ -194,6 +194,276 @@ static void do_dis(const Frame &q, Frame &a)
   a["dis"] = out;
 }
 
+// ------------------------------------------------------------------ C08 scan
+// Decodes every leading 16-bit pattern lo..hi (memory order: high byte first)
+// followed by three different tails and checks the per-instruction clauses of
+// C08 in-process.  Anomalies are returned as lines "kind\tpattern\ttail\tdetail".
+static void fill(Memory &mem, uint32_t addr, int p, int tail, bool complement_tail, int keep)
+{
+  uint8_t b[20];
+  b[0] = (p >> 8) & 0xff;
+  b[1] = p & 0xff;
+  for (int i = 2; i < 20; i++)
+  {
+    uint8_t t;
+    if (tail == 0) { t = 0; }
+    else if (tail == 1) { t = 0xff; }
+    else { t = (uint8_t)((p * 31 + i * 97 + (p >> 5)) ^ (i << 3)); }
+    b[i] = t;
+  }
+  for (int i = 0; i < 20; i++)
+  {
+    uint8_t v = b[i];
+    if (complement_tail && i >= keep) { v = ~v; }
+    mem.write8(addr + i, v);
+  }
+}
+
+// The scan itself runs in forked children so that a decoder that crashes or hangs on one pattern costs one
+// fork, not the worker: the child reports "@<pattern>" before each pattern, the parent records a crash/hang at
+// the last reported pattern and forks again for the rest.
+static void c08scan_child(const NvCpu *cpu, int lo, int hi, int step, int lmax, uint32_t addr, int fd)
+{
+  Memory mem;
+  mem.endian = cpu->endian;
+  std::string out;
+  long evals = 0, unknown = 0, multi = 0;
+  std::map<int, long> lens;
+  char d[400];
+  for (int p = lo; p <= hi; p += step)
+  {
+    snprintf(d, sizeof(d), "@%d\n", p);
+    out += d;
+    if (out.size() > 60000 || true)
+    {
+      if (write(fd, out.data(), out.size()) < 0) { _exit(3); }
+      out.clear();
+    }
+    alarm(10);
+    for (int tail = 0; tail < 3; tail++)
+    {
+      for (int k = -4; k < 0; k++) { mem.write8(addr + k, 0x11 * (tail + 1)); }
+      fill(mem, addr, p, tail, false, 0);
+      std::string t1, t2, t3, t4;
+      int n1 = nv_disasm(cpu, &mem, addr, t1);
+      evals++;
+      lens[n1]++;
+      if (t1.find("<<UNTERMINATED>>") != std::string::npos)
+      {
+        snprintf(d, sizeof(d), "unterminated\t%d\t%d\tlen=%d\n", p, tail, n1);
+        out += d;
+        continue;
+      }
+      if (t1.find("???") != std::string::npos || t1.empty()) { unknown++; }
+      if (n1 <= 0)
+      {
+        snprintf(d, sizeof(d), "len_nonpositive\t%d\t%d\tlen=%d text=%.60s\n", p, tail, n1, t1.c_str());
+        out += d;
+        continue;
+      }
+      if (n1 % cpu->unit != 0)
+      {
+        snprintf(d, sizeof(d), "len_not_unit_multiple\t%d\t%d\tlen=%d unit=%d text=%.60s\n", p, tail, n1, cpu->unit, t1.c_str());
+        out += d;
+      }
+      if (n1 > lmax)
+      {
+        snprintf(d, sizeof(d), "len_too_long\t%d\t%d\tlen=%d text=%.60s\n", p, tail, n1, t1.c_str());
+        out += d;
+      }
+      if (n1 > cpu->unit) { multi++; }
+      int n2 = nv_disasm(cpu, &mem, addr, t2);
+      if (n2 != n1 || t2 != t1)
+      {
+        snprintf(d, sizeof(d), "nondeterministic\t%d\t%d\tlen=%d/%d\n", p, tail, n1, n2);
+        out += d;
+      }
+      // for an undefined encoding the decoder necessarily looked at more bytes than the one unit it consumes
+      const bool undefined = t1.find("???") != std::string::npos || t1.empty();
+      if (n1 < 20 && !undefined)
+      {
+        fill(mem, addr, p, tail, true, n1);
+        int n3 = nv_disasm(cpu, &mem, addr, t3);
+        if (n3 != n1 || t3 != t1)
+        {
+          snprintf(d, sizeof(d), "nonlocal_after\t%d\t%d\tlen=%d '%.50s' vs len=%d '%.50s'\n", p, tail, n1, t1.c_str(), n3, t3.c_str());
+          out += d;
+        }
+        fill(mem, addr, p, tail, false, 0);
+      }
+      for (int k = -4; k < 0; k++) { mem.write8(addr + k, 0xe7 ^ (k & 0xff)); }
+      int n4 = nv_disasm(cpu, &mem, addr, t4);
+      if (n4 != n1 || t4 != t1)
+      {
+        snprintf(d, sizeof(d), "nonlocal_before\t%d\t%d\tlen=%d '%.50s' vs len=%d '%.50s'\n", p, tail, n1, t1.c_str(), n4, t4.c_str());
+        out += d;
+      }
+    }
+  }
+  snprintf(d, sizeof(d), "#stats\t%ld\t%ld\t%ld\n", evals, unknown, multi);
+  out += d;
+  for (std::map<int, long>::iterator it = lens.begin(); it != lens.end(); ++it)
+  {
+    snprintf(d, sizeof(d), "#len\t%d\t%ld\n", it->first, it->second);
+    out += d;
+  }
+  out += "#done\n";
+  if (write(fd, out.data(), out.size()) < 0) { _exit(3); }
+  _exit(0);
+}
+
+#include <sys/wait.h>
+#include <signal.h>
+#include <time.h>
+
+static void do_c08scan(const Frame &q, Frame &a)
+{
+  const NvCpu *cpu = nv_cpu_by_name(get(q, "cpu").c_str());
+  if (cpu == NULL || cpu->disasm == NULL) { a["error"] = "unknown cpu"; return; }
+  int lo = atoi(get(q, "lo", "0").c_str());
+  int hi = atoi(get(q, "hi", "65535").c_str());
+  int step = atoi(get(q, "step", "1").c_str());
+  int lmax = atoi(get(q, "lmax", "16").c_str());
+  uint32_t addr = strtoul(get(q, "addr", "256").c_str(), NULL, 0);
+  std::string anomalies;
+  long evals = 0, unknown = 0, multi = 0;
+  std::map<int, long> lens;
+  int cur = lo;
+  int forks = 0;
+  while (cur <= hi && forks < 70000)
+  {
+    int fds[2];
+    if (pipe(fds) != 0) { a["error"] = "pipe"; return; }
+    fflush(NULL);
+    pid_t pid = fork();
+    forks++;
+    if (pid == 0)
+    {
+      close(fds[0]);
+      c08scan_child(cpu, cur, hi, step, lmax, addr, fds[1]);
+    }
+    close(fds[1]);
+    std::string text;
+    char buf[65536];
+    while (true)
+    {
+      ssize_t k = read(fds[0], buf, sizeof(buf));
+      if (k <= 0) { break; }
+      text.append(buf, k);
+    }
+    close(fds[0]);
+    int status = 0;
+    waitpid(pid, &status, 0);
+    // parse
+    int last = cur - step;
+    bool done = false;
+    size_t pos = 0;
+    while (pos < text.size())
+    {
+      size_t nl = text.find('\n', pos);
+      if (nl == std::string::npos) { break; }
+      std::string line = text.substr(pos, nl - pos);
+      pos = nl + 1;
+      if (line.empty()) { continue; }
+      if (line[0] == '@') { last = atoi(line.c_str() + 1); continue; }
+      if (line == "#done") { done = true; continue; }
+      if (line.compare(0, 6, "#stats") == 0)
+      {
+        long e, u, m;
+        if (sscanf(line.c_str() + 7, "%ld\t%ld\t%ld", &e, &u, &m) == 3) { evals += e; unknown += u; multi += m; }
+        continue;
+      }
+      if (line.compare(0, 4, "#len") == 0)
+      {
+        int l; long c;
+        if (sscanf(line.c_str() + 5, "%d\t%ld", &l, &c) == 2) { lens[l] += c; }
+        continue;
+      }
+      anomalies += line + "\n";
+    }
+    if (done) { break; }
+    // the child died on pattern `last`
+    char d[200];
+    const char *kind = (WIFSIGNALED(status) && WTERMSIG(status) == SIGALRM) ? "hang" : "crash";
+    snprintf(d, sizeof(d), "%s\t%d\t0\tchild status %d\n", kind, last, WIFEXITED(status) ? WEXITSTATUS(status) : -WTERMSIG(status));
+    anomalies += d;
+    evals += 3;
+    cur = last + step;
+  }
+  a["anomalies"] = anomalies;
+  a["evals"] = itos(evals);
+  a["unknown"] = itos(unknown);
+  a["multi"] = itos(multi);
+  std::string ls;
+  for (std::map<int, long>::iterator it = lens.begin(); it != lens.end(); ++it)
+  {
+    ls += itos(it->first) + ":" + itos(it->second) + " ";
+  }
+  a["lens"] = ls;
+}
+
+// ------------------------------------------------------------- range (forked)
+static void do_range(const Frame &q, Frame &a)
+{
+  const NvCpu *cpu = nv_cpu_by_name(get(q, "cpu").c_str());
+  if (cpu == NULL) { a["error"] = "unknown cpu"; return; }
+  uint32_t addr = strtoul(get(q, "addr", "0").c_str(), NULL, 0);
+  uint32_t start = strtoul(get(q, "start", "0").c_str(), NULL, 0);
+  uint32_t end = strtoul(get(q, "end", "0").c_str(), NULL, 0);
+  int timeout_s = atoi(get(q, "timeout", "5").c_str());
+  std::string bytes = get(q, "bytes");
+  int fds[2];
+  if (pipe(fds) != 0) { a["error"] = "pipe"; return; }
+  fflush(NULL);
+  pid_t pid = fork();
+  if (pid == 0)
+  {
+    close(fds[0]);
+    dup2(fds[1], 1);
+    alarm(timeout_s + 2);
+    Memory *mem = new Memory();
+    mem->endian = cpu->endian;
+    for (size_t i = 0; i < bytes.size(); i++) { mem->write8(addr + i, (uint8_t)bytes[i]); }
+    setvbuf(stdout, NULL, _IOFBF, 1 << 16);
+    cpu_list[cpu->index].disasm_range(mem, cpu->flags, start, end);
+    fflush(stdout);
+    _exit(0);
+  }
+  close(fds[1]);
+  std::string text;
+  char buf[4096];
+  time_t t0 = time(NULL);
+  bool timed_out = false;
+  // non-blocking-ish read loop with a deadline
+  while (true)
+  {
+    fd_set rf;
+    FD_ZERO(&rf);
+    FD_SET(fds[0], &rf);
+    struct timeval tv = { 1, 0 };
+    int r = select(fds[0] + 1, &rf, NULL, NULL, &tv);
+    if (r > 0)
+    {
+      ssize_t k = read(fds[0], buf, sizeof(buf));
+      if (k <= 0) { break; }
+      if (text.size() < (1 << 20)) { text.append(buf, k); }
+    }
+    if (time(NULL) - t0 > timeout_s || text.size() >= (1 << 20))
+    {
+      timed_out = (time(NULL) - t0 > timeout_s);
+      kill(pid, SIGKILL);
+      break;
+    }
+  }
+  close(fds[0]);
+  int status = 0;
+  waitpid(pid, &status, 0);
+  a["text"] = text;
+  a["timeout"] = timed_out ? "1" : "0";
+  a["overflow"] = text.size() >= (1 << 20) ? "1" : "0";
+  a["status"] = itos(WIFEXITED(status) ? WEXITSTATUS(status) : -WTERMSIG(status));
+}
+
 static void do_cpus(Frame &a)
 {
   std::string s;
@@ -222,6 +492,8 @@ int main(int argc, char *argv[])
     if (cmd == "asm") { do_asm(q, a); }
     else if (cmd == "dis") { do_dis(q, a); }
     else if (cmd == "cpus") { do_cpus(a); }
+    else if (cmd == "c08scan") { do_c08scan(q, a); }
+    else if (cmd == "range") { do_range(q, a); }
     else if (cmd == "ping") { a["pong"] = "1"; }
     else { a["error"] = "unknown cmd"; }
     write_frame(a);
